@@ -125,6 +125,38 @@ func ruleC04_7(c *Ctx) {
 				"the connection is declared initialised without having seen and consumed the complete run of +OK replies: a partial handshake reply is decoded as a client's reply", withGuards(gs))
 		}
 	}
+	// (c2) "wait for more" is decided by: what has arrived is a prefix of what is expected (not the other way round)
+	{
+		incomplete := p.Global("rcproxy/core/pkg/errors", "ErrIncompletePacket")
+		found, okP := false, true
+		var at ssa.Instruction
+		allInstrs(idec, func(in ssa.Instruction) {
+			r, ok := in.(*ssa.Return)
+			if !ok {
+				return
+			}
+			ld, ok := results(r)[0].(*ssa.UnOp)
+			if !ok || incomplete == nil || ld.X != ssa.Value(incomplete) {
+				return
+			}
+			for _, g := range guardsAt(r.Block()) {
+				cl, ok := g.Cond.(*ssa.Call)
+				if !ok || !g.Truth || staticCalleeName(&cl.Call) != "strings.HasPrefix" {
+					continue
+				}
+				found, at = true, in
+				if !strings.Contains(expr(cl.Call.Args[0]), "ShortcutOK") || strings.Contains(expr(cl.Call.Args[1]), "ShortcutOK") {
+					okP = false
+				}
+			}
+		})
+		if found {
+			c.check(okP, "InitializingDecode: partial handshake reply waits", c.at(at), "HasPrefix(expected, received) ⇒ incomplete",
+				"the test for a partly arrived handshake reply has its arguments the wrong way round (received has the expected text as prefix - which the branch above already handled - instead of expected having the received bytes as prefix): a two-step handshake whose +OK replies arrive in different reads is not waited for, the first +OK is matched to the first client request on that connection and every later reply is shifted")
+		} else {
+			c.undecided("InitializingDecode: partial handshake reply waits", p.pos(idec.Pos()), "no ErrIncompletePacket return under a HasPrefix test found")
+		}
+	}
 	// (d) ShortcutOK[n] is n times +OK
 	if rows, ok := p.mapLiteralExprs(pkgCore, "ShortcutOK"); ok {
 		for k, v := range rows {
